@@ -26,3 +26,41 @@ func C01_AcceptShaped() {
 	verif.Assert((err == nil) == ref.ok, "accepted exactly when the grammar accepts")
 	verif.Assert((c != nil) == (err == nil), "non-nil object exactly when nil error")
 }
+
+// C01_AcceptStruct: the same on the element-structured inputs (SHAPE).
+func C01_AcceptStruct() {
+	s := structInput()
+	c, err := ParseVector(s)
+	ref := refParse(s)
+	verif.Assert((err == nil) == ref.ok, "accepted exactly when the grammar accepts")
+	verif.Assert((c != nil) == (err == nil), "non-nil object exactly when nil error")
+}
+
+// C01_AcceptDropped: the same on the base part with one mandatory element left out.
+func C01_AcceptDropped() {
+	s := droppedInput()
+	c, err := ParseVector(s)
+	ref := refParse(s)
+	verif.Assert((err == nil) == ref.ok, "accepted exactly when the grammar accepts")
+	verif.Assert((c != nil) == (err == nil), "non-nil object exactly when nil error")
+}
+
+// C01_AcceptMutated: the same on every single-byte edit (replace by an
+// arbitrary byte / insert an arbitrary byte / delete) of the canonical base
+// part with arbitrary values, at the positions POS0 .. POS0+mutChunk-1.
+func C01_AcceptMutated() {
+	base := baseInput()
+	b := verif.NondetBytes("mb", 1)
+	kind := verif.Param("MUT", 0)
+	lo := verif.Param("POS0", 0)
+	for p := lo; p < lo+mutChunkN(); p++ {
+		s, ok := mutated(base, b, kind, p)
+		if !ok {
+			continue
+		}
+		c, err := ParseVector(s)
+		ref := refParse(s)
+		verif.Assert((err == nil) == ref.ok, "accepted exactly when the grammar accepts")
+		verif.Assert((c != nil) == (err == nil), "non-nil object exactly when nil error")
+	}
+}
